@@ -535,10 +535,8 @@ func (g *Gen) intExpr(t *Type, sc *Scope, depth int) (string, bool) {
 		op := []string{"/", "%"}[g.n(2)]
 		a, _ := g.expr2(t, sc, depth-1)
 		b, _ := g.expr2(t, sc, depth-1)
-		if g.n(6) == 0 {
-			// may divide by zero: a deterministic run-time panic
-			return "(id(" + a + ") " + op + " id(" + b + "))", false
-		}
+		// a division that may panic is a statement of its own (divStmt): inside an expression
+		// the moment of the panic relative to the calls of sibling operands is not specified
 		return "(id(" + a + ") " + op + " (" + b + " | 1))", false
 	case 5:
 		op := []string{"<<", ">>"}[g.n(2)]
